@@ -25,6 +25,10 @@ abbrev shape : Shape := Ecal.Gen.C19.runShape
     of a closure that calls `recover()` and assigns the named result `err`. -/
 theorem shape_recovers : shape.recovers = true := by decide
 
+/-- Second side obligation: surplus arguments are rejected by an explicit check returning
+    `(nil, error)` (first statement of the argument loop, or before it). -/
+theorem shape_arity_checked : shape.arityChecked = true := by decide
+
 /-- `o` is an error made by the bridge itself (not by the wrapped function): `Run` returned
     `(nil, err)` with `err` one of: too many parameters, wrong parameter type, recovered panic. -/
 def IsBridgeError (o : Outcome) : Prop :=
@@ -64,27 +68,27 @@ theorem not_reaching_is_error {oob : IntKind → Num → Int} {sig : Sig} {args 
     ∃ e, (∀ v, e ≠ Err.func v) ∧
       ∀ body, run shape oob (.fn sig body) args = .done (.one .nil) (some e) := by
   unfold reaches at h
-  cases hb : buildArgs oob sig.params args with
+  cases hb : buildArgs true oob sig.params args with
   | error e =>
-    exact ⟨.bridge e, (fun v hh => by cases hh), (by intro body; simp [run, runRaw, hb])⟩
+    exact ⟨.bridge e, (fun v hh => by cases hh), (by intro body; simp [run, runRaw, shape_arity_checked, hb])⟩
   | panic =>
-    exact ⟨.recovered, (fun v hh => by cases hh), (by intro body; simp [run, runRaw, hb, shape_recovers])⟩
+    exact ⟨.recovered, (fun v hh => by cases hh), (by intro body; simp [run, runRaw, shape_arity_checked, hb, shape_recovers])⟩
   | ok f =>
     simp [hb] at h
-    exact ⟨.recovered, (fun v hh => by cases hh), (by intro body; simp [run, runRaw, hb, h, shape_recovers])⟩
+    exact ⟨.recovered, (fun v hh => by cases hh), (by intro body; simp [run, runRaw, shape_arity_checked, hb, h, shape_recovers])⟩
 
 /-- If they do, the function is run once on the converted arguments and its results are converted. -/
 theorem reaching_runs_body {oob : IntKind → Num → Int} {sig : Sig} {args f : List Val}
     (h : reaches oob sig args = some f) (body : List Val → BodyOut) :
     run shape oob (.fn sig body) args = finish shape sig (body f) := by
   unfold reaches at h
-  cases hb : buildArgs oob sig.params args with
+  cases hb : buildArgs true oob sig.params args with
   | error e => simp [hb] at h
   | panic => simp [hb] at h
   | ok f' =>
     simp [hb] at h
     obtain ⟨hc, rfl⟩ := h
-    simp only [run, runRaw, hb, hc, finish]
+    simp only [run, runRaw, shape_arity_checked, hb, hc, finish]
     cases body f' <;> simp
 
 /-! ## Wrong number of arguments -/
@@ -95,7 +99,7 @@ theorem too_many_is_error (oob : IntKind → Num → Int) (sig : Sig) (args : Li
     IsBridgeError (run shape oob (.fn sig body) args) := by
   have hr : reaches oob sig args = none := by
     unfold reaches
-    cases hb : buildArgs oob sig.params args with
+    cases hb : buildArgs true oob sig.params args with
     | ok f => have := (buildArgs_ok_length hb).2; omega
     | _ => rfl
   obtain ⟨e, he, hrun⟩ := not_reaching_is_error hr
@@ -103,6 +107,23 @@ theorem too_many_is_error (oob : IntKind → Num → Int) (sig : Sig) (args : Li
 
 example : IsBridgeError (run shape (fun _ _ => 0) (.fn ⟨[.f64], false, [.f64]⟩ .ret) [.f64 (.fin 1 0), .f64 (.fin 2 0)]) :=
   too_many_is_error _ _ _ (by decide) _
+
+/-- … and it is the bridge's own, explicit error — not a reflect panic that happened to be
+    recovered: if the first `NumIn` arguments are acceptable, `Run` returns "too many parameters". -/
+theorem too_many_is_checked (oob : IntKind → Num → Int) (sig : Sig) (args f : List Val)
+    (h : sig.params.length < args.length)
+    (hok : buildArgs true oob sig.params (args.take sig.params.length) = .ok f)
+    (body : List Val → BodyOut) :
+    run shape oob (.fn sig body) args = .done (.one .nil) (some (.bridge .tooMany)) := by
+  have hsplit := List.take_append_drop sig.params.length args
+  have hb := buildArgs_surplus (args.drop sig.params.length) hok
+    (by simp; omega) (by intro hd; have := congrArg List.length hd; simp at this; omega)
+  rw [hsplit] at hb
+  simp [run, runRaw, shape_arity_checked, hb]
+
+example : run shape (fun _ _ => 0) (.fn ⟨[.f64], false, [.f64]⟩ .ret) [.f64 (.fin 1 0), .str "s:61"]
+    = .done (.one .nil) (some (.bridge .tooMany)) :=
+  too_many_is_checked _ _ _ [.f64 (.fin 1 0)] (by decide) (by decide) _
 
 /-- **Too few arguments** — fewer than `NumIn` (`NumIn - 1` for a variadic function) — give a
     bridge error (reflect's panic, recovered); the function is not run. -/
@@ -112,7 +133,7 @@ theorem too_few_is_error (oob : IntKind → Num → Int) (sig : Sig) (args : Lis
     IsBridgeError (run shape oob (.fn sig body) args) := by
   have hr : reaches oob sig args = none := by
     unfold reaches
-    cases hb : buildArgs oob sig.params args with
+    cases hb : buildArgs true oob sig.params args with
     | ok f =>
       have hl := (buildArgs_ok_length hb).1
       by_cases hc : callCheck sig f = true
@@ -136,7 +157,7 @@ theorem wrong_kind_is_error (oob : IntKind → Num → Int) (sig : Sig) (args : 
     IsBridgeError (run shape oob (.fn sig body) args) := by
   have hr : reaches oob sig args = none := by
     unfold reaches
-    cases hb : buildArgs oob sig.params args with
+    cases hb : buildArgs true oob sig.params args with
     | ok f =>
       have := buildArgs_ok_compatible hb i p a hp ha
       simp [this] at hbad
@@ -156,7 +177,7 @@ theorem null_is_handled (oob : IntKind → Num → Int) (sig : Sig) (args : List
     IsBridgeError (run shape oob (.fn sig body) args) := by
   have hr : reaches oob sig args = none := by
     unfold reaches
-    cases hb : buildArgs oob sig.params args with
+    cases hb : buildArgs true oob sig.params args with
     | ok f => simp [callCheck_nil_mem (buildArgs_ok_nil_mem hb h)]
     | _ => rfl
   obtain ⟨e, he, hrun⟩ := not_reaching_is_error hr
@@ -175,9 +196,9 @@ theorem numeric_in_range_exact {oob : IntKind → Num → Int} {sig : Sig} {args
     (h : reaches oob sig args = some f) (i : Nat) (x : Num) (ha : args[i]? = some (.f64 x)) :
     (∀ k n, sig.params[i]? = some (.int k) → x.IsInt n → k.inRange n = true → f[i]? = some (.int k n)) ∧
     (sig.params[i]? = some .f64 → f[i]? = some (.f64 x)) := by
-  have hb : buildArgs oob sig.params args = .ok f := by
+  have hb : buildArgs true oob sig.params args = .ok f := by
     unfold reaches at h
-    cases hb : buildArgs oob sig.params args with
+    cases hb : buildArgs true oob sig.params args with
     | ok f' => simp [hb] at h; rw [h.2]
     | error e => simp [hb] at h
     | panic => simp [hb] at h
